@@ -48,6 +48,9 @@ def evaluate(cls, wd, feats=(), topology=None, container=None):
     rec = impl.mk_record(CRec(0, wd, list(feats), []))
     if topology is not None:
         rec.annotations["topology"] = topology        # "circular" in any letter case is what GenBank files may say
+    if len(wd) % 3 == 1:
+        # a sequence-verified clone: per-letter qualities travel with the record
+        rec.letter_annotations["phred_quality"] = [20 + (i * 7) % 21 for i in range(len(wd))]
     if container == "seqrecord":
         # the plasmid as Bio.SeqIO hands it over: a plain SeqRecord that declares its topology
         rec = impl.SeqRecord(rec.seq, id=rec.id, name=rec.name, features=list(rec.features),
